@@ -1,19 +1,35 @@
 /- GENERATED: instance obligations for one logic, discharged by kernel evaluation.
-   `X ⊆ known`: every failing row is a committed known finding (Ptx/Gen/Known.lean). -/
+   `S` = the logic with its DOCUMENTED tables (Ptx/Sem/Spec.lean); rules, closure, trunk and frames
+   are what the translator read off the code.  `X ⊆ known`: every failing row is a committed
+   known finding (Ptx/Gen/Known.lean, generated from known_findings.json). -/
 import Ptx.Gen.L_S5K3W
 import Ptx.Gen.Known
 import Ptx.Sem.Subset
+import Ptx.Props.C01
+import Ptx.Gen.L_K3W
 namespace Ptx.Gen.Obl.S5K3W
 open Ptx
 
-theorem tables_total : Gen.S5K3W.tablesTotalB = true := by decide +kernel
-theorem rules_exact : subsetB Gen.S5K3W.badRules (Known.badRules "S5K3W") = true := by decide +kernel
-theorem rules_sound : subsetB Gen.S5K3W.unsoundRules (Known.unsoundRules "S5K3W") = true := by decide +kernel
-theorem rules_total : subsetB Gen.S5K3W.missingRules (Known.missingRules "S5K3W") = true := by decide +kernel
-theorem rules_local : Gen.S5K3W.nonLocalRules = [] := by decide +kernel
-theorem closure_total : Gen.S5K3W.closureTotalB = true := by decide +kernel
-theorem closure_exact : subsetB Gen.S5K3W.badClosure (Known.badClosure "S5K3W") = true := by decide +kernel
-theorem read_total : Gen.S5K3W.readTotalB = true := by decide +kernel
-theorem read_exact : subsetB Gen.S5K3W.badRead (Known.badRead "S5K3W") = true := by decide +kernel
+/-- a modal / first-order extension has exactly the truth-functional tables of its base (K3W) -/
+theorem base_tables : Gen.S5K3W.tables.sameTF Gen.K3W.tables = true := by decide +kernel
+theorem spec_defined : Gen.S5K3W.specDefinedB = true := by decide +kernel
+theorem tables_spec : subsetB Gen.S5K3W.tableDiff (Known.tableDiff "S5K3W") = true := by decide +kernel
+theorem defined_ops : Gen.S5K3W.tables.definedOpsBad = [] := by decide +kernel
+theorem tables_total : Gen.S5K3W.sem.tablesTotalB = true := by decide +kernel
+theorem rules_exact : subsetB Gen.S5K3W.sem.badRules (Known.badRules "S5K3W") = true := by decide +kernel
+theorem rules_sound : subsetB Gen.S5K3W.sem.unsoundRules (Known.unsoundRules "S5K3W") = true := by decide +kernel
+theorem rules_total : subsetB Gen.S5K3W.sem.missingRules (Known.missingRules "S5K3W") = true := by decide +kernel
+theorem rules_local : Gen.S5K3W.sem.nonLocalRules = [] := by decide +kernel
+theorem closure_total : Gen.S5K3W.sem.closureTotalB = true := by decide +kernel
+theorem closure_exact : subsetB Gen.S5K3W.sem.badClosure (Known.badClosure "S5K3W") = true := by decide +kernel
+theorem read_total : Gen.S5K3W.sem.readTotalB = true := by decide +kernel
+theorem read_exact : subsetB Gen.S5K3W.sem.badRead (Known.badRead "S5K3W") = true := by decide +kernel
+theorem sound_core : Gen.S5K3W.sem.soundCoreB = true := by decide +kernel
+
+/-- C01 for this logic: a closed tableau reached by any legal derivation has no countermodel. -/
+theorem c01_valid_sound (arg : Argument) (t : Tableau)
+    (hd : Deriv Gen.S5K3W.sem.soundPart.noQuantPart (trunk Gen.S5K3W.sem arg) t) (hclosed : t.allClosed = true)
+    (M : Struct) (hM : M.Interp Gen.S5K3W.sem) (e : Env M.D) (w0 : M.W) : ¬ Countermodel Gen.S5K3W.sem M e w0 arg :=
+  Props.C01.C01_valid_sound_partial Gen.S5K3W.sem sound_core arg t hd hclosed M hM e w0
 
 end Ptx.Gen.Obl.S5K3W
